@@ -33,6 +33,10 @@ def datatype_schemas():
                                          K("kl", "string-list", default=""), K("kx", "string")])],
                       children=[K("ke", "string", default=""), K("kl", "string-list", default=""),
                                 MK("me", "string", defaults=["", "x"]), MSEC("t1", "*", "ones")]))
+    # an empty default that its datatype refuses: a conversion error like any other, when the default is needed
+    out.append(SCHEMA(types=[TYPE("t1", [MK("mi", "integer", defaults=[""]), K("k1")]),
+                             TYPE("t2", [K("ki", "integer", default=""), K("k1")])],
+                      children=[MSEC("t1", "*", "ones"), MSEC("t2", "*", "twos"), K("k0")]))
     # attribute names given explicitly, also ones that begin with an underscore (legal identifiers)
     out.append(SCHEMA(types=[TYPE("t1", [K("k1", attribute="_level"), MK("m1", "integer", attribute="__"),
                                          K("+", attribute="_rest"), K("k-2", attribute="given")], datatype="wrap")],
@@ -85,7 +89,7 @@ def replay_g(v):
 def run(chk):
     quick = chk.tier == "quick"
     docs = datatype_schemas() + schemas.family(chk.seed + 1, 4 if quick else 20)
-    chk.rule = ("as C01, over 14 datatype-stress schemas (every standard datatype with a reference conversion on a key, a "
+    chk.rule = ("as C01, over 15 datatype-stress schemas (every standard datatype with a reference conversion on a key, a "
                 "defaulted key, a multikey, a defaulted multikey, a '+' key and a '+' multikey with keyed defaults, inside a "
                 "wrapping section datatype) plus the interaction and random family; for every accepted text the projected "
                 "real tree (all attributes of all section values, names, types) is compared with the specification's "
